@@ -386,3 +386,431 @@ Proof.
   - exact (proj2 C09_nonvacuous).
 Qed.
 Print Assumptions C09_nonvacuous_exts.
+
+(* ==== inputs with dangling extensions (work package c09x) ======================================================= *)
+(* The graphs that the real pipelines hand to compress_graph DO carry extension bits that resolve to no node end
+   (count-filtered tables keep extensions towards filtered-out k-mers; shard graphs combined by BaseGraph::combine keep
+   extensions into k-mers censored in another shard), so [resolvable] - part of [rvalid] - fails on them.  It is not
+   needed:
+     [rvalid_loose g]  = [rvalid g] WITHOUT [resolvable] (Check/RecompLooseCheck.v).  [links_sym] is conditional on the
+                         extension resolving, so only the extensions that DO resolve must have a return extension.
+     [prune g]         = fix_exts g None: g with exactly the dangling bits removed.
+   Two independent facts make every theorem above hold under [rvalid_loose]:
+    (1) pruning changes nothing that compress_graph can see - for EVERY graph (no hypothesis), every valid set and every
+        censor list, fix_exts (prune g) v = fix_exts g v and compress_graph (prune g) = compress_graph g;
+    (2) the pruned graph of a loosely valid graph is valid.
+   All statements are about the ORIGINAL graph g (its restriction g1 = fix_exts g (Some survivors), its k-mers). *)
+From DBG Require Import Check.RecompLooseCheck Proofs.RecompLoose Proofs.RecompLooseMain.
+
+Theorem C09X_rvalid_iff_loose : forall D K stranded (g : graph D),
+  rvalid D K stranded g <-> rvalid_loose D K stranded g /\ resolvable D K stranded g.
+Proof. exact rvalid_iff_loose. Qed.
+Print Assumptions C09X_rvalid_iff_loose.
+
+Theorem C09X_chk_valid_loose_sound : forall D K stranded (g : graph D),
+  rvalid_looseb D K stranded g = true -> rvalid_loose D K stranded g.
+Proof. exact rvalid_looseb_sound. Qed.
+Print Assumptions C09X_chk_valid_loose_sound.
+
+(* ---- (a) directly: the first step of compress_graph establishes the walk invariant ----------------------------- *)
+Theorem C09X_restrict_invariant : forall D K stranded (g g1 : graph D) S,
+  rvalid_loose D K stranded g -> (forall x, In x S -> (x < length g)%nat) ->
+  restrict D K stranded g S = Some g1 -> winv D K stranded g1 S.
+Proof. exact restrict_winv_loose. Qed.
+Print Assumptions C09X_restrict_invariant.
+
+(* ---- (b) pruning ---------------------------------------------------------------------------------------------- *)
+(* what the pruned graph is: same sequences and payloads, a bit is kept iff it was set and resolves to a node end *)
+Theorem C09X_prune_spec : forall D K stranded (g g' : graph D) x n,
+  prune D K stranded g = Some g' -> nth_error g x = Some n ->
+  exists e, nth_error g' x = Some (n_seq D n, e, n_data D n) /\ e < 256 /\
+    forall d b, In b bases4 ->
+      e_has_ext e (dirb d) b =
+      e_has_ext (n_exts D n) (dirb d) b &&
+      match ext_link D K stranded g x d b with Some _ => true | None => false end.
+Proof. exact prune_spec. Qed.
+Print Assumptions C09X_prune_spec.
+
+Theorem C09X_prune_total : forall D K stranded (g : graph D), exists g', prune D K stranded g = Some g'.
+Proof. exact prune_total. Qed.
+Print Assumptions C09X_prune_total.
+
+(* fix_exts(Some(all ids)) = fix_exts(None) *)
+Theorem C09X_restrict_all_prune : forall D K stranded (g : graph D),
+  restrict D K stranded g (seq 0 (length g)) = prune D K stranded g.
+Proof. exact restrict_all_prune. Qed.
+Print Assumptions C09X_restrict_all_prune.
+
+(* pruning does not change what any extension resolves to (NO hypothesis on g) ... *)
+Theorem C09X_ext_link_prune : forall D K stranded (g g' : graph D) x d b,
+  prune D K stranded g = Some g' -> In b bases4 -> ext_link D K stranded g' x d b = ext_link D K stranded g x d b.
+Proof. exact ext_link_prune. Qed.
+Print Assumptions C09X_ext_link_prune.
+
+(* ... hence neither the result of fix_exts, for any valid set, ... *)
+Theorem C09X_fix_exts_prune : forall D K stranded (g g' : graph D) valid,
+  prune D K stranded g = Some g' -> fix_exts D K stranded g' valid = fix_exts D K stranded g valid.
+Proof. exact fix_exts_prune. Qed.
+Print Assumptions C09X_fix_exts_prune.
+
+(* ... nor the result of compress_graph, for any censor list *)
+Theorem C09X_compress_graph_prune : forall D reduce join K stranded (g g' : graph D) censor,
+  prune D K stranded g = Some g' ->
+  compress_graph_paths D reduce join K stranded g' censor = compress_graph_paths D reduce join K stranded g censor.
+Proof. exact compress_graph_prune. Qed.
+Print Assumptions C09X_compress_graph_prune.
+
+(* more generally: two graphs with the same node sequences and payloads whose extensions resolve TO SURVIVORS alike
+   (i.e. which differ only by bits that do not resolve to a survivor) are compressed alike *)
+Theorem C09X_compress_graph_congr : forall D reduce join K stranded (g g' : graph D) censor,
+  length g' = length g ->
+  (forall x n, nth_error g x = Some n ->
+     exists n', nth_error g' x = Some n' /\ n_seq D n' = n_seq D n /\ n_data D n' = n_data D n) ->
+  (forall x d b, In b bases4 ->
+     keeps D K stranded g' (Some (survivors D g censor)) x d b = keeps D K stranded g (Some (survivors D g censor)) x d b) ->
+  compress_graph_paths D reduce join K stranded g' censor = compress_graph_paths D reduce join K stranded g censor.
+Proof. exact compress_graph_congr. Qed.
+Print Assumptions C09X_compress_graph_congr.
+
+(* the pruned graph of a loosely valid graph is valid: the bridge through which every theorem of C09 transfers *)
+Theorem C09X_prune_valid : forall D K stranded (g g' : graph D),
+  rvalid_loose D K stranded g -> prune D K stranded g = Some g' -> rvalid D K stranded g'.
+Proof. exact prune_rvalid. Qed.
+Print Assumptions C09X_prune_valid.
+
+Theorem C09X_restrict_of_rvalid_loose : forall D K stranded (g g1 : graph D),
+  rvalid_loose D K stranded g -> restrict D K stranded g (seq 0 (length g)) = Some g1 -> rvalid D K stranded g1.
+Proof. exact restrict_of_rvalid_loose. Qed.
+Print Assumptions C09X_restrict_of_rvalid_loose.
+
+(* a valid graph has nothing to prune *)
+Theorem C09X_prune_valid_id : forall D K stranded (g : graph D),
+  rvalid D K stranded g -> prune D K stranded g = Some g.
+Proof. exact prune_rvalid_id. Qed.
+Print Assumptions C09X_prune_valid_id.
+
+(* ---- the theorems of C09, FULL, under rvalid_loose -------------------------------------------------------------- *)
+Theorem C09X_recompress_refines_walk : forall D reduce join K stranded, (forall a b, join a b = join b a) ->
+  forall (g : graph D) censor,
+  rvalid_loose D K stranded g ->
+  exists g1 out r,
+    restrict D K stranded g (survivors D g censor) = Some g1 /\ winv D K stranded g1 (survivors D g censor) /\
+    compress_graph_paths D reduce join K stranded g censor = Some (out, map snd r) /\
+    result_ok D reduce join K stranded g1 (survivors D g censor) r
+      (compress nat Nat.eq_dec (wnext D join K stranded g1 (survivors D g censor)) (seq 0 (length g))
+                (survivors D g censor)) /\
+    pruned_of D K stranded (map fst r) None out.
+Proof. exact recompress_refines_walk_loose. Qed.
+Print Assumptions C09X_recompress_refines_walk.
+
+(* totality: on every loosely valid graph compress_graph returns (no panic, no fuel exhaustion) *)
+Theorem C09X_recompress_total : forall D reduce join K stranded, (forall a b, join a b = join b a) ->
+  forall (g : graph D) censor,
+  rvalid_loose D K stranded g ->
+  exists out paths, compress_graph_paths D reduce join K stranded g censor = Some (out, paths).
+Proof. exact recompress_total_loose. Qed.
+Print Assumptions C09X_recompress_total.
+
+Theorem C09X_recompress_partition : forall D reduce join K stranded, (forall a b, join a b = join b a) ->
+  forall (g : graph D) censor out paths,
+  rvalid_loose D K stranded g -> compress_graph_paths D reduce join K stranded g censor = Some (out, paths) ->
+  length out = length paths /\
+  NoDup (concat (map (map fst) paths)) /\
+  forall x, In x (concat (map (map fst) paths)) <->
+            (x < length g)%nat /\ match censor with Some c => ~ In x c | None => True end.
+Proof. exact recompress_partition_loose. Qed.
+Print Assumptions C09X_recompress_partition.
+
+Theorem C09X_recompress_kmers : forall D reduce join K stranded, (forall a b, join a b = join b a) ->
+  forall (g : graph D) censor out paths,
+  rvalid_loose D K stranded g -> compress_graph_paths D reduce join K stranded g censor = Some (out, paths) ->
+  Permutation (graph_kmers D K stranded out) (surv_kmers D K stranded g (survivors D g censor)) /\
+  (NoDup (surv_kmers D K stranded g (survivors D g censor)) -> kmers_exact D K stranded g censor out).
+Proof. exact recompress_kmers_exact_loose. Qed.
+Print Assumptions C09X_recompress_kmers.
+
+Theorem C09X_recompress_maximal : forall D reduce join K stranded, (forall a b, join a b = join b a) ->
+  forall (g : graph D) censor out paths,
+  rvalid_loose D K stranded g -> compress_graph_paths D reduce join K stranded g censor = Some (out, paths) ->
+  exists g1, restrict D K stranded g (survivors D g censor) = Some g1 /\
+    forall p, In p paths -> forall x d w t,
+      In x (map fst p) -> rnext D join K stranded g1 x d = Some (w, t) -> In w (map fst p).
+Proof. exact recompress_maximal_loose. Qed.
+Print Assumptions C09X_recompress_maximal.
+
+Theorem C09X_recompress_merged_ok : forall D reduce join K stranded, (forall a b, join a b = join b a) ->
+  forall (g : graph D) censor out paths,
+  rvalid_loose D K stranded g -> compress_graph_paths D reduce join K stranded g censor = Some (out, paths) ->
+  exists g1, restrict D K stranded g (survivors D g censor) = Some g1 /\
+             Forall (merged_ok D join K stranded g1 (survivors D g censor)) out.
+Proof. exact recompress_merged_ok_loose. Qed.
+Print Assumptions C09X_recompress_merged_ok.
+
+Theorem C09X_payload_fold : forall D reduce join K stranded, (forall a b, join a b = join b a) ->
+  forall (g : graph D) censor out paths,
+  rvalid_loose D K stranded g -> compress_graph_paths D reduce join K stranded g censor = Some (out, paths) ->
+  exists g1, restrict D K stranded g (survivors D g censor) = Some g1 /\
+    Forall2 (fun n p => exists lp seed rp sd0 ds, p = assemble lp seed rp /\
+               option_map (n_data D) (nth_error g1 seed) = Some sd0 /\
+               datas D g1 (verts nat lp ++ verts nat rp) = Some ds /\
+               n_data D n = fold_left reduce ds sd0) out paths.
+Proof. exact payload_fold_loose. Qed.
+Print Assumptions C09X_payload_fold.
+
+(* every result node is built from its node path (spelling, payload fold, terminal extensions of the end nodes) *)
+Theorem C09X_recompress_nodes : forall D reduce join K stranded, (forall a b, join a b = join b a) ->
+  forall (g : graph D) censor out paths,
+  rvalid_loose D K stranded g -> compress_graph_paths D reduce join K stranded g censor = Some (out, paths) ->
+  exists g1, restrict D K stranded g (survivors D g censor) = Some g1 /\
+             Forall2 (node_of_path D reduce join K stranded g1) out paths.
+Proof. exact recompress_nodes_loose. Qed.
+Print Assumptions C09X_recompress_nodes.
+
+(* extension EQUALITY w.r.t. the restricted graph g1 = fix_exts g (Some survivors) *)
+Theorem C09X_recompress_exts : forall D reduce join K stranded, (forall a b, join a b = join b a) ->
+  forall (g : graph D) censor out paths,
+  rvalid_loose D K stranded g -> compress_graph_paths D reduce join K stranded g censor = Some (out, paths) ->
+  exts_exact D K stranded g censor out.
+Proof. exact recompress_exts_exact_loose. Qed.
+Print Assumptions C09X_recompress_exts.
+
+Theorem C09X_recompress_node_exts : forall D reduce join K stranded, (forall a b, join a b = join b a) ->
+  forall (g : graph D) censor out paths,
+  rvalid_loose D K stranded g -> compress_graph_paths D reduce join K stranded g censor = Some (out, paths) ->
+  exists g1, restrict D K stranded g (survivors D g censor) = Some g1 /\
+    Forall2 (fun n p => sequence_of_path D K g1 p = Some (n_seq D n) /\ path_exts D g1 p = Some (n_exts D n)) out paths.
+Proof. exact recompress_node_exts_loose. Qed.
+Print Assumptions C09X_recompress_node_exts.
+
+Theorem C09X_final_fix_exts_identity : forall D reduce join K stranded, (forall a b, join a b = join b a) ->
+  forall (g : graph D) censor g1 r,
+  rvalid_loose D K stranded g ->
+  fix_exts D K stranded g (Some (initial_avail (length g) censor)) = Some g1 ->
+  rb_loop D reduce join K stranded g1 (seq 0 (length g)) (initial_avail (length g) censor) = Some r ->
+  fix_exts D K stranded (map fst r) None = Some (map fst r).
+Proof. exact final_fix_exts_identity_loose. Qed.
+Print Assumptions C09X_final_fix_exts_identity.
+
+(* idempotence: a loosely valid graph whose pruned graph has no mergeable pair of distinct nodes is compressed to its
+   PRUNED graph (same nodes, order, orientation, payloads; extension bytes minus the dangling bits).  With dangling
+   bits the graph itself is not a fixed point - the bits are dropped. *)
+Theorem C09X_recompress_idempotent : forall D reduce join K stranded, (forall a b, join a b = join b a) ->
+  forall (g g' : graph D),
+  rvalid_loose D K stranded g -> prune D K stranded g = Some g' ->
+  (forall x d y t, rnext D join K stranded g' x d = Some (y, t) -> y = x) ->
+  compress_graph D reduce join K stranded g None = Some g'.
+Proof. exact recompress_idempotent_loose. Qed.
+Print Assumptions C09X_recompress_idempotent.
+
+(* ---- non-vacuity -------------------------------------------------------------------------------------------------- *)
+(* K = 4, unstranded.  Node 0 = AACCG has TWO right extension bits: T (CCGT, the left end of node 1 = CCGTT) and the
+   DANGLING A (CCGA is no node end), plus a dangling left bit G; node 2 = TCAAC (the reverse complement of GTTGA, which
+   follows node 1) has a dangling left bit T; node 3 = GGGAGA is isolated with two dangling bits.  The graph is loosely
+   valid but NOT valid, and in it node 0 looks branching on the right (rnext = None); compress_graph nevertheless
+   succeeds and merges 0, 1 and 2 (flipped) into AACCGTTGA - across the place where the dangling bit made node 0 look
+   branching - and, when node 2 is censored, 0 and 1 into AACCGTT. *)
+Definition ex_loose : graph rpay :=
+  [ ([0;0;1;1;2], 148, (0,[0])); ([1;1;2;3;3], 65, (0,[1])); ([3;1;0;0;1], 72, (0,[2])); ([2;2;2;0;2;0], 72, (0,[3])) ].
+Example C09X_nonvacuous :
+  rvalid_loose rpay 4 false ex_loose /\ ~ rvalid rpay 4 false ex_loose /\
+  dangling rpay 4 false ex_loose 0 DRight 0 /\
+  rnext rpay (rpay_join 0) 4 false ex_loose 0 DRight = None /\
+  prune rpay 4 false ex_loose =
+    Some [ ([0;0;1;1;2], 128, (0,[0])); ([1;1;2;3;3], 65, (0,[1])); ([3;1;0;0;1], 64, (0,[2])); ([2;2;2;0;2;0], 0, (0,[3])) ] /\
+  compress_graph_paths rpay rpay_reduce (rpay_join 0) 4 false ex_loose None =
+    Some ([ ([0;0;1;1;2;3;3;2;0], 0, (0,[0;1;2])); ([2;2;2;0;2;0], 0, (0,[3])) ],
+          [ [(0%nat, DLeft); (1%nat, DLeft); (2%nat, DRight)]; [(3%nat, DLeft)] ]) /\
+  compress_graph_paths rpay rpay_reduce (rpay_join 0) 4 false ex_loose (Some [2%nat]) =
+    Some ([ ([0;0;1;1;2;3;3], 0, (0,[0;1])); ([2;2;2;0;2;0], 0, (0,[3])) ],
+          [ [(0%nat, DLeft); (1%nat, DLeft)]; [(3%nat, DLeft)] ]).
+Proof.
+  split; [apply rvalid_looseb_sound; vm_compute; reflexivity|].
+  split.
+  { intros (_ & _ & _ & _ & Hres & _).
+    apply (Hres 0%nat DRight 0 ([0;0;1;1;2], 148, (0,[0]))); [reflexivity | cbn; auto | vm_compute; reflexivity | vm_compute; reflexivity]. }
+  split; [eexists; split; [reflexivity|]; split; vm_compute; reflexivity|].
+  repeat split; vm_compute; reflexivity.
+Qed.
+Print Assumptions C09X_nonvacuous.
+
+(* the theorems apply to it: e.g. the extension bytes of the result are exact w.r.t. the restricted graph *)
+Example C09X_nonvacuous_exts :
+  exts_exact rpay 4 false ex_loose None
+    [ ([0;0;1;1;2;3;3;2;0], 0, (0,[0;1;2])); ([2;2;2;0;2;0], 0, (0,[3])) ].
+Proof.
+  eapply (C09X_recompress_exts rpay rpay_reduce (rpay_join 0) 4 false).
+  - intros a b. unfold rpay_join. reflexivity.
+  - exact (proj1 C09X_nonvacuous).
+  - exact (proj1 (proj2 (proj2 (proj2 (proj2 (proj2 C09X_nonvacuous)))))).
+Qed.
+Print Assumptions C09X_nonvacuous_exts.
+
+(* ---- where loosely valid graphs come from: C03's graph_ok and the outputs of compress_kmers (C01) ---------------- *)
+(* [graph_ok] (Spec/EdgeSpec.v, C03: well-formed nodes, distinct ends, resolvable extensions answered by a return
+   extension - the hypothesis of C03_edges_symmetric, checked on every implementation graph by chk_graph_ok) implies
+   [rvalid_loose] as soon as the extension fields are bytes and a palindromic k-mer occurs only as a node of its own
+   ([pal_ends]; not part of graph_ok).  [links_sym] IS C03_edges_symmetric read on extension bits.  With C03's
+   [exts_resolvable] in addition ([valid_graph]) the graph is [rvalid]. *)
+From DBG Require Spec.EdgeSpec Proofs.CompressGraphOk Proofs.RecompLooseGraphOk.
+
+Theorem C09X_graph_ok_rvalid_loose : forall D K stranded (g : graph D),
+  EdgeSpec.graph_ok D K stranded g -> (forall n, In n g -> n_exts D n < 256) -> pal_ends D K stranded g ->
+  rvalid_loose D K stranded g.
+Proof. exact RecompLooseGraphOk.graph_ok_rvalid_loose. Qed.
+Print Assumptions C09X_graph_ok_rvalid_loose.
+
+Theorem C09X_valid_graph_rvalid : forall D K stranded (g : graph D),
+  EdgeSpec.valid_graph D K stranded g -> (forall n, In n g -> n_exts D n < 256) -> pal_ends D K stranded g ->
+  rvalid D K stranded g.
+Proof. exact RecompLooseGraphOk.valid_graph_rvalid. Qed.
+Print Assumptions C09X_valid_graph_rvalid.
+
+(* Every graph that compress_kmers builds from a table satisfying C01's hypotheses ([tbl_ok], [exts_sym]) and
+   [exts_sym_pal] (Proofs/CompressGraphOk.v) is loosely valid - the table may well carry extensions towards absent
+   (count-filtered) k-mers: [exts_sym] only speaks about extensions whose target is present.  Hence compress_graph, with
+   any censor list, returns on it and all C09X theorems apply. *)
+Theorem C09X_compress_kmers_rvalid_loose : forall D reduce join K stranded, (1 <= K)%nat -> forall T : Compress.table D,
+  CompressSpec.tbl_ok D K stranded T -> CompressSpec.exts_sym D stranded T -> CompressGraphOk.exts_sym_pal D stranded T ->
+  exists nodes, Compress.compress_kmers D reduce join stranded T = Some nodes /\
+    EdgeSpec.graph_ok D K stranded nodes /\ rvalid_loose D K stranded nodes.
+Proof. exact RecompLooseGraphOk.compress_kmers_rvalid_loose. Qed.
+Print Assumptions C09X_compress_kmers_rvalid_loose.
+
+Theorem C09X_compress_kmers_then_compress_graph : forall D reduce join K stranded, (1 <= K)%nat ->
+  (forall a b, join a b = join b a) -> forall T : Compress.table D,
+  CompressSpec.tbl_ok D K stranded T -> CompressSpec.exts_sym D stranded T -> CompressGraphOk.exts_sym_pal D stranded T ->
+  exists nodes, Compress.compress_kmers D reduce join stranded T = Some nodes /\
+    forall censor, exists out paths,
+      compress_graph_paths D reduce join K stranded nodes censor = Some (out, paths).
+Proof. exact RecompLooseGraphOk.compress_kmers_then_compress_graph. Qed.
+Print Assumptions C09X_compress_kmers_then_compress_graph.
+
+(* non-vacuity: the table of C09_nonvacuous_singleton with the entry of CTCC (index 7) REMOVED after the extensions
+   were derived - a count-filtered table: ACTC keeps its extension towards CTCC, CCGA (stored as TCGG) the one back.
+   The hypotheses hold; compress_kmers breaks the unitig AACTCCGA into AACTC and TCGGA, whose extension bytes 34 and 64
+   carry the dangling bits: the graph is loosely valid (by the theorem) and not valid; compress_graph returns its pruned
+   graph (bytes 2 and 0). *)
+Definition C09X_ex_table : Compress.table rpay := firstn 7 C09_ex_table ++ skipn 8 C09_ex_table.
+Definition C09X_ex_graph : graph rpay :=
+  [ ([0;1;2;3], 129, (0,[0])); ([0;0;1;2], 130, (0,[1])); ([3;2;1;0], 24, (0,[2])); ([2;1;0;0;1], 200, (0,[3;4]));
+    ([0;0;1;3;1], 34, (0,[5;6])); ([3;1;2;2;0], 64, (0,[8;9])) ].
+Example C09X_nonvacuous_table :
+  CompressSpec.tbl_ok rpay 4 false C09X_ex_table /\ CompressSpec.exts_sym rpay false C09X_ex_table /\
+  CompressGraphOk.exts_sym_pal rpay false C09X_ex_table /\
+  Compress.compress_kmers rpay rpay_reduce (rpay_join 0) false C09X_ex_table = Some C09X_ex_graph /\
+  rvalid_loose rpay 4 false C09X_ex_graph /\ dangling rpay 4 false C09X_ex_graph 4 DRight 1 /\
+  ~ rvalid rpay 4 false C09X_ex_graph /\
+  compress_graph rpay rpay_reduce (rpay_join 0) 4 false C09X_ex_graph None = prune rpay 4 false C09X_ex_graph /\
+  prune rpay 4 false C09X_ex_graph =
+    Some [ ([0;1;2;3], 129, (0,[0])); ([0;0;1;2], 130, (0,[1])); ([3;2;1;0], 24, (0,[2])); ([2;1;0;0;1], 200, (0,[3;4]));
+           ([0;0;1;3;1], 2, (0,[5;6])); ([3;1;2;2;0], 0, (0,[8;9])) ].
+Proof.
+  assert (H1 : CompressSpec.tbl_ok rpay 4 false C09X_ex_table)
+    by (apply CompressHypProofs.tbl_okb_sound; vm_compute; reflexivity).
+  assert (H2 : CompressSpec.exts_sym rpay false C09X_ex_table)
+    by (apply CompressHypProofs.exts_symb_sound; vm_compute; reflexivity).
+  assert (H3 : CompressGraphOk.exts_sym_pal rpay false C09X_ex_table)
+    by (apply CompressGraphOk.exts_sym_palb_sound; vm_compute; reflexivity).
+  assert (H4 : Compress.compress_kmers rpay rpay_reduce (rpay_join 0) false C09X_ex_table = Some C09X_ex_graph)
+    by (vm_compute; reflexivity).
+  split; [exact H1|]. split; [exact H2|]. split; [exact H3|]. split; [exact H4|].
+  split.
+  { destruct (C09X_compress_kmers_rvalid_loose rpay rpay_reduce (rpay_join 0) 4 false (le_n_S _ _ (Nat.le_0_l _))
+                C09X_ex_table H1 H2 H3) as (nodes & Hc & _ & V).
+    rewrite H4 in Hc. injection Hc as <-. exact V. }
+  split; [eexists; split; [reflexivity|]; split; vm_compute; reflexivity|].
+  split.
+  { intros (_ & _ & _ & _ & Hres & _).
+    apply (Hres 4%nat DRight 1 ([0;0;1;3;1], 34, (0,[5;6]))); [reflexivity | cbn; auto | vm_compute; reflexivity | vm_compute; reflexivity]. }
+  split; vm_compute; reflexivity.
+Qed.
+Print Assumptions C09X_nonvacuous_table.
+
+(* ---- graphs combined by BaseGraph::combine ------------------------------------------------------------------------ *)
+(* combine_graphs = concatenation of the shard graphs (node i of shard j becomes node offset_j + i).  When the k-mer
+   sets of the shard graphs are pairwise disjoint - NoDup of the (canonical) k-mers of the combined graph, which is what
+   C04's combine_spec concludes - the following is PRESERVED from [rvalid_loose] of every shard graph:
+   node well-formedness, distinct left ends, distinct right ends, [pal_ends], and the symmetry of every link between
+   two nodes of the SAME shard graph ([rvalid_loose_within]); find_link of the combined graph extends find_link of each
+   shard graph.  NOT preserved: the symmetry of links that cross from one shard graph to another - an extension that
+   was dangling in its shard may resolve to a node of another shard that records no return extension
+   (C09X_combine_counterexample: compress_graph then panics).  With cross-shard symmetry added the combined graph is
+   loosely valid and all C09X theorems apply. *)
+From DBG Require Proofs.RecompLooseCombine.
+
+Theorem C09X_combine_find_link : forall D K stranded (g1 g2 : graph D),
+  Forall (node_ok D K) g1 -> Forall (node_ok D K) g2 -> NoDup (graph_kmers D K stranded (g1 ++ g2)) ->
+  forall k d y t f,
+  (find_link D K stranded g1 k d = Some (y, t, f) -> find_link D K stranded (g1 ++ g2) k d = Some (y, t, f)) /\
+  (find_link D K stranded g2 k d = Some (y, t, f) ->
+     find_link D K stranded (g1 ++ g2) k d = Some ((length g1 + y)%nat, t, f)) /\
+  (find_link D K stranded (g1 ++ g2) k d = Some (y, t, f) ->
+     ((y < length g1)%nat /\ find_link D K stranded g1 k d = Some (y, t, f)) \/
+     ((length g1 <= y)%nat /\ find_link D K stranded g2 k d = Some ((y - length g1)%nat, t, f))).
+Proof. exact RecompLooseCombine.find_link_app. Qed.
+Print Assumptions C09X_combine_find_link.
+
+Theorem C09X_combine_within : forall D K stranded (gs : list (graph D)),
+  Forall (rvalid_loose D K stranded) gs -> NoDup (graph_kmers D K stranded (combine_graphs gs)) ->
+  rvalid_loose_within D K stranded gs (combine_graphs gs).
+Proof. exact RecompLooseCombine.combine_rvalid_loose_within. Qed.
+Print Assumptions C09X_combine_within.
+
+Theorem C09X_combine_rvalid_loose : forall D K stranded (gs : list (graph D)),
+  Forall (rvalid_loose D K stranded) gs -> NoDup (graph_kmers D K stranded (combine_graphs gs)) ->
+  links_sym_on D K stranded (fun x y => ~ same_shard D gs x y) (combine_graphs gs) ->
+  rvalid_loose D K stranded (combine_graphs gs).
+Proof. exact RecompLooseCombine.combine_rvalid_loose. Qed.
+Print Assumptions C09X_combine_rvalid_loose.
+
+(* non-vacuity: ex_loose is the combination of three loosely valid shard graphs with disjoint k-mers (its cross-shard
+   links 0 -> 1 -> 2 are symmetric) *)
+Example C09X_nonvacuous_combine :
+  let gs : list (graph rpay) :=
+    [ [ ([0;0;1;1;2], 148, (0,[0])) ]; [ ([1;1;2;3;3], 65, (0,[1])); ([3;1;0;0;1], 72, (0,[2])) ];
+      [ ([2;2;2;0;2;0], 72, (0,[3])) ] ] in
+  Forall (rvalid_loose rpay 4 false) gs /\ NoDup (graph_kmers rpay 4 false (combine_graphs gs)) /\
+  combine_graphs gs = ex_loose /\ rvalid_loose_within rpay 4 false gs (combine_graphs gs).
+Proof.
+  intro gs.
+  assert (H1 : Forall (rvalid_loose rpay 4 false) gs)
+    by (repeat (apply Forall_cons; [apply rvalid_looseb_sound; vm_compute; reflexivity|]); apply Forall_nil).
+  assert (H2 : NoDup (graph_kmers rpay 4 false (combine_graphs gs))) by (apply nodupb_sound; vm_compute; reflexivity).
+  split; [exact H1|]. split; [exact H2|]. split; [reflexivity|]. now apply C09X_combine_within.
+Qed.
+Print Assumptions C09X_nonvacuous_combine.
+
+(* counter-example for the cross-shard links: shard A = { AACCG with the right extension T } (dangling in A), shard
+   B = { CCGTT without extensions }; both are loosely valid and their k-mers are disjoint.  In the combination the
+   extension of node 0 resolves to node 1, which has no return extension: the combined graph is not loosely valid, and
+   compress_graph reaches the "unreachable" panic of try_extend_node (incoming_count = 0). *)
+Example C09X_combine_counterexample :
+  let gs : list (graph rpay) := [ [ ([0;0;1;1;2], 128, (0,[0])) ]; [ ([1;1;2;3;3], 0, (0,[1])) ] ] in
+  Forall (rvalid_loose rpay 4 false) gs /\ NoDup (graph_kmers rpay 4 false (combine_graphs gs)) /\
+  ext_link rpay 4 false (combine_graphs gs) 0 DRight 3 = Some (1%nat, DLeft, false) /\
+  ~ rvalid_loose rpay 4 false (combine_graphs gs) /\
+  compress_graph_paths rpay rpay_reduce (rpay_join 0) 4 false (combine_graphs gs) None = None.
+Proof.
+  intro gs.
+  split; [repeat (apply Forall_cons; [apply rvalid_looseb_sound; vm_compute; reflexivity|]); apply Forall_nil|].
+  split; [apply nodupb_sound; vm_compute; reflexivity|].
+  split; [vm_compute; reflexivity|].
+  split; [|vm_compute; reflexivity].
+  intros (_ & _ & _ & _ & Hsym).
+  destruct (Hsym 0%nat DRight 3 1%nat DLeft false ([0;0;1;1;2], 128, (0,[0])) ([1;1;2;3;3], 0, (0,[1])))
+    as (t' & b' & d' & f' & Hb' & He' & _); [reflexivity | reflexivity | cbn; auto | vm_compute; reflexivity|].
+  cbn in Hb'. destruct t'; destruct Hb' as [<-|[<-|[<-|[<-|[]]]]]; vm_compute in He'; discriminate.
+Qed.
+Print Assumptions C09X_combine_counterexample.
+
+(* the same from the hypothesis of C04_combine_spec: shard graphs with duplicate-free k-mers carrying pairwise different
+   shard ids *)
+From DBG Require Check.PipelineCheck.
+Theorem C09X_combine_shards_within : forall K stranded (sh : dna -> N) (bs : list N) (gs : list (graph rpay)),
+  NoDup bs ->
+  Forall2 (fun b g => NoDup (PipelineCheck.graph_kmers K stranded g) /\
+                      forall x, In x (PipelineCheck.graph_kmers K stranded g) -> sh x = b) bs gs ->
+  Forall (rvalid_loose rpay K stranded) gs ->
+  rvalid_loose_within rpay K stranded gs (combine_graphs gs).
+Proof. exact RecompLooseCombine.combine_shards_rvalid_loose_within. Qed.
+Print Assumptions C09X_combine_shards_within.
